@@ -94,6 +94,7 @@ type SpecFile struct {
 	Axioms    []*Lemma
 	Opaque    map[string]string
 	SortAlias map[string]string
+	SortAliasPkg map[string]string
 	Assumed   []string // free-text list of assumptions stated in the file
 	Immutable     []string
 	ImmutablePkg  []string
@@ -417,6 +418,7 @@ func ParseSpecFile(path, pkgName, pkgPath string, sf *SpecFile) error {
 			parts := strings.SplitN(rest, "=", 2)
 			if len(parts) == 2 {
 				sf.SortAlias[strings.TrimSpace(parts[0])] = strings.TrimSpace(parts[1])
+				sf.SortAliasPkg[strings.TrimSpace(parts[0])] = pkgPath
 			}
 		case "assume-note":
 			sf.Assumed = append(sf.Assumed, rest)
@@ -540,5 +542,5 @@ func parseGhost(rest string, uninterp bool, file string, line int) (*GhostFunc, 
 }
 
 func NewSpecFile() *SpecFile {
-	return &SpecFile{Contracts: map[string]*Contract{}, Ghosts: map[string]*GhostFunc{}, Opaque: map[string]string{}, SortAlias: map[string]string{}}
+	return &SpecFile{Contracts: map[string]*Contract{}, Ghosts: map[string]*GhostFunc{}, Opaque: map[string]string{}, SortAlias: map[string]string{}, SortAliasPkg: map[string]string{}}
 }
